@@ -131,6 +131,30 @@ impl Fixtures {
             }
             maps.push(Doc { bytes: Arc::new(text.into_bytes()), label: format!("inline:nested-index-minimal-depth-{depth}"), kind: DocKind::Inline });
         }
+        // "minified bundle" shape: one or two lines holding very many segments, with range flags
+        // at far token positions (255, 256, 4095, ..., the last token)
+        for segs in [300usize, 5_000, 70_000] {
+            let mut m = String::with_capacity(segs * 5);
+            for k in 0..segs {
+                if k > 0 {
+                    m.push(',');
+                }
+                m.push_str(if k == 0 { "AAAA" } else { "CAAC" });
+            }
+            m.push_str(";AAAA,EAAE");
+            let mut bits = vec![0u8; segs / 6 + 1];
+            for pos in [0usize, 17, 255, 256, 4095, 4096, 65_535, 65_536, segs - 1] {
+                if pos < segs {
+                    bits[pos / 6] |= 1 << (pos % 6);
+                }
+            }
+            while bits.last() == Some(&0) {
+                bits.pop();
+            }
+            let r: String = bits.iter().map(|&b| B64[b as usize] as char).collect();
+            let text = format!("{{\"version\":3,\"sources\":[\"min.js\"],\"names\":[],\"mappings\":\"{m}\",\"rangeMappings\":\"{r};B\"}}");
+            maps.push(Doc { bytes: Arc::new(text.into_bytes()), label: format!("inline:one-line-{segs}-segments"), kind: DocKind::Inline });
+        }
         // scale: a few large documents with many generated lines (and a rangeMappings line per
         // generated line); sampled very rarely, they are what makes super-linear decoding or
         // query time visible to the wall-clock backstop
@@ -189,21 +213,55 @@ pub fn base64(data: &[u8]) -> String {
     out
 }
 
+thread_local! {
+    /// while set, string *values* are written with a third of their characters as \\uXXXX escapes
+    /// (astral characters as escaped surrogate pairs): the same document, another spelling
+    static ESCAPE_VALUES: std::cell::Cell<bool> = const { std::cell::Cell::new(false) };
+}
+
 fn jstr(s: &str) -> String {
-    serde_json::to_string(s).unwrap()
+    if !ESCAPE_VALUES.with(|e| e.get()) {
+        return serde_json::to_string(s).unwrap();
+    }
+    let mut out = String::from("\"");
+    for (i, ch) in s.chars().enumerate() {
+        let esc = (i * 7 + s.len()) % 3 == 0;
+        if ch == '"' || ch == '\\' {
+            out.push('\\');
+            out.push(ch);
+        } else if (ch as u32) < 0x20 {
+            out.push_str(&format!("\\u{:04x}", ch as u32));
+        } else if ch == '/' && esc {
+            out.push_str("\\/");
+        } else if esc {
+            let mut buf = [0u16; 2];
+            for u in ch.encode_utf16(&mut buf) {
+                out.push_str(&format!("\\u{:04x}", u));
+            }
+        } else {
+            out.push(ch);
+        }
+    }
+    out.push('"');
+    out
 }
 
 // names with multi-byte characters at every small byte offset (code that slices names at a
 // fixed offset must land inside a character for some of them), schemes in mixed case, Windows paths
-const WORDS: [&str; 30] = [
+const WORDS: [&str; 38] = [
     "a.js", "b/c.js", "/abs/d.js", "http://h/e.js", "", "ünï.js", "x\"y.js", "foo", "bar", "function", "€", "👌",
     "aé.js", "abé.js", "abcé.js", "src/é.js", "src/a€.js", "lib/ab👌.js", "日本語.js", "abcd👌e", "HTTP://H/x.js", "Https://h/é",
     "C:\\dir\\f.js", "a/b/../c.js", "/", "//x", "http:", "https:/é", "abcdef€", "ab/cd/ef/gh.js",
+    "/srv/app/src/é.js", "/srv/app/src/a.js", "/srv/app/lib/b.js", "/srv/app/lib/深/c.js", "/srv/app", "C:\\p\\a.js", "C:\\p\\q\\b.js", "src/lib/x.js",
 ];
 
 fn word(rng: &mut Rng) -> &'static str {
     *rng.pick(&WORDS[..])
 }
+
+/// an embedded source of 45 lines mixing terminators, multi-byte and astral characters at small
+/// columns, so that original positions drawn from 0..40 x 0..60 land inside real text
+const LONG_CONTENT: &str = "function a(){}\nvar é = 1;\r\nlet 👌x = function b(){};\rconst c = () => {};\n\n// 日本語 comment\nfunction d(e, f) { return e + f }\r\n\r\nclass G { h() {} }\n  indented();\n\tTabbed();\nfunction i(){}\nvar j;\nvar k;\nvar l;\rvar m;\rvar n;\nfoo(bar(baz()));\n'string with 👌 inside';\n\"é\";\nfunction o(){}\nfunction p(){}\nfunction q(){}\r\nfunction r(){}\nfunction s(){}\nx\ny\nz\n0\n1\n2\n3\n4\n5\n6\n7\n8\n9\nfunction t(){}\nlast line without terminator";
 
 struct Emit<'r> {
     rng: &'r mut Rng,
@@ -235,6 +293,8 @@ impl Emit<'_> {
         let nlines = rng.small(6);
         let allow_extreme = rng.chance(1, 3);
         let long_lines = rng.chance(1, 10);
+        let mid_range = rng.chance(1, 6);
+        let backward_steps = rng.chance(1, 8);
         let mut out = String::new();
         let mut ranges = Vec::new();
         let (mut src, mut sl, mut sc, mut nm) = (0i64, 0i64, 0i64, 0i64);
@@ -259,10 +319,36 @@ impl Emit<'_> {
                 if s > 0 {
                     out.push(',');
                 }
+                // exact repetition of the previous segment (all-zero deltas): the serialiser drops
+                // exact consecutive duplicates while range-bit positions still count them
+                if s > 0 && !same_pos_run && rng.chance(1, 14) {
+                    let f = *rng.pick(&[1u8, 4, 5]);
+                    if f == 1 || nsrc > 0 {
+                        out.push_str(match f {
+                            1 => "A",
+                            4 => "AAAA",
+                            _ => {
+                                if nnames > 0 {
+                                    "AAAAA"
+                                } else {
+                                    "AAAA"
+                                }
+                            }
+                        });
+                        line_ranges.push(rng.chance(1, 8));
+                        continue;
+                    }
+                }
                 let ncol = if s == 0 {
                     rng.below(6) as i64
                 } else if same_pos_run {
                     col
+                } else if mid_range && rng.chance(1, 3) {
+                    // mid-range steps: VLQs of 2..5 digits, columns in the thousands and millions
+                    col + *rng.pick(&[9i64, 15, 16, 31, 32, 500, 1023, 1024, 40_000, 1 << 20]) + rng.below(7) as i64
+                } else if backward_steps && col > 0 && rng.chance(1, 4) {
+                    // a plain small step backwards: well-formed, but the tokens arrive unsorted
+                    col - 1 - rng.below(col.min(9) as u64) as i64
                 } else {
                     col + rng.below(8) as i64
                 };
@@ -307,7 +393,13 @@ impl Emit<'_> {
                         line_ranges.push(rng.chance(1, 8));
                         continue;
                     }
-                    let nsl = if rng.chance(1, 24) { *rng.pick(&[0i64, 1 << 31, (1 << 32) - 1, (1 << 32) - 2]) } else { rng.below(40) as i64 };
+                    let nsl = if rng.chance(1, 24) {
+                        *rng.pick(&[0i64, 1 << 31, (1 << 32) - 1, (1 << 32) - 2])
+                    } else if mid_range && rng.chance(1, 3) {
+                        *rng.pick(&[100i64, 2000, 65_535, 65_536, 1_000_000])
+                    } else {
+                        rng.below(40) as i64
+                    };
                     vlq(&mut out, nsl - sl);
                     sl = nsl;
                     let nsc = if rng.chance(1, 24) { *rng.pick(&[0i64, 1 << 31, (1 << 32) - 1]) } else { rng.below(60) as i64 };
@@ -356,8 +448,11 @@ impl Emit<'_> {
     }
 
     fn regular(&mut self, depth: u32, hermes: bool) -> String {
-        let nsrc = self.rng.small(4) as u32;
-        let nnames = self.rng.small(4) as u32;
+        // a handful of sources and names; one document in ten has dozens to hundreds (multi-digit
+        // VLQ ids, larger intern tables)
+        let many = self.rng.chance(1, 10);
+        let nsrc = if many { self.rng.range(16, 120) as u32 } else { self.rng.small(4) as u32 };
+        let nnames = if many { self.rng.range(16, 300) as u32 } else { self.rng.small(4) as u32 };
         let allow_bad = self.rng.chance(1, 12);
         let (mappings, ranges) = self.mappings(nsrc, nnames, allow_bad);
         let mut keys: Vec<(String, String)> = Vec::new();
@@ -406,6 +501,7 @@ impl Emit<'_> {
                             "a\rb\r",
                             "x=function(){return function y(){}}();                                                                                function z(){}",
                             "//# sourceURL=/home/émilie/app.js\nfunction f(){}",
+                            LONG_CONTENT,
                         ]))
                     }
                 })
@@ -477,12 +573,14 @@ impl Emit<'_> {
                 .map(|_| {
                     if rng.chance(1, 5) {
                         "null".into()
+                    } else if rng.chance(1, 10) {
+                        "[]".into()
                     } else {
                         let nn = if rng.chance(1, 8) { 0 } else { 1 + rng.small(3) };
                         let names: Vec<String> = (0..nn).map(|_| jstr(word(rng))).collect();
                         let col_only = rng.chance(1, 6);
                         let mut m = String::new();
-                        let nl = rng.small(3);
+                        let nl = if rng.chance(1, 20) { rng.range_usize(40, 200) } else { rng.small(3) };
                         for l in 0..=nl {
                             if l > 0 {
                                 m.push(';');
@@ -491,16 +589,24 @@ impl Emit<'_> {
                                 if s > 0 {
                                     m.push(',');
                                 }
-                                vlq(&mut m, rng.below(20) as i64);
+                                let wild = rng.chance(1, 12);
+                                let pick_wild = |rng: &mut Rng| *rng.pick(&[-1i64, -5, 1 << 31, -(1 << 31), (1 << 32) - 1, -((1 << 32) - 1), 70_000]);
+                                vlq(&mut m, if wild { pick_wild(rng) } else { rng.below(20) as i64 });
                                 if !col_only && rng.chance(3, 4) {
-                                    vlq(&mut m, rng.below(nn as u64 + 1) as i64 - 1);
+                                    vlq(&mut m, if wild { pick_wild(rng) } else { rng.below(nn as u64 + 1) as i64 - 1 });
                                     if rng.chance(2, 3) {
-                                        vlq(&mut m, rng.below(5) as i64);
+                                        vlq(&mut m, if wild { pick_wild(rng) } else { rng.below(5) as i64 });
                                     }
                                 }
                             }
                         }
-                        format!("[{{\"names\":[{}],\"mappings\":{}}}]", names.join(","), jstr(&m))
+                        let first = format!("{{\"names\":[{}],\"mappings\":{}}}", names.join(","), jstr(&m));
+                        if rng.chance(1, 6) {
+                            // further metadata objects after the function map
+                            format!("[{first},{{\"names\":[\"other\"],\"mappings\":\"AAA\"}},{{\"names\":[],\"mappings\":\"\"}}]")
+                        } else {
+                            format!("[{first}]")
+                        }
                     }
                 })
                 .collect();
@@ -517,11 +623,28 @@ impl Emit<'_> {
     }
 
     fn index(&mut self, depth: u32) -> String {
-        let nsec = self.rng.small(4);
+        // a few sections; rarely dozens to hundreds of tiny ones (what RAM-bundle maps look
+        // like), with runs of sections sharing one offset
+        let many_sections = depth == 0 && self.rng.chance(1, 25);
+        let nsec = if many_sections { self.rng.range_usize(20, 400) } else { self.rng.small(4) };
         let mut secs = Vec::new();
+        let mut same_run = 0u32;
         let (mut line, mut col) = (0u64, 0u64);
         for _ in 0..nsec {
             let rng = &mut *self.rng;
+            if many_sections {
+                if same_run > 0 {
+                    same_run -= 1;
+                } else {
+                    line += 1;
+                    if rng.chance(1, 12) {
+                        same_run = rng.range(4, 40) as u32;
+                    }
+                }
+                let off = format!("{{\"line\":{line},\"column\":0}}");
+                secs.push(format!("{{\"offset\":{off},\"map\":{{\"version\":3,\"sources\":[\"a.js\"],\"sourcesContent\":[\"x\"],\"names\":[],\"mappings\":\"AAAA\"}}}}"));
+                continue;
+            }
             if rng.chance(2, 3) {
                 line += rng.below(4);
             }
@@ -555,8 +678,10 @@ impl Emit<'_> {
         if !rng.chance(1, 8) {
             keys.push(("version".into(), "3".into()));
         }
-        if rng.chance(1, 2) {
-            keys.push(("file".into(), jstr(word(rng))));
+        match rng.below(10) {
+            0..=4 => keys.push(("file".into(), jstr(word(rng)))),
+            5 => keys.push(("file".into(), (*rng.pick(&["17", "null", "true", "{}", "[\"a\"]"])).into())),
+            _ => {}
         }
         if rng.chance(1, 4) {
             keys.push(("x_facebook_offsets".into(), (*rng.pick(&["[0,null,12,4294967295]", "[]", "[null]", "[null,null,null]", "[0]", "[null,5]", "[7,null]", "null"])).into()));
@@ -603,6 +728,7 @@ impl Emit<'_> {
 
 pub fn synth(rng: &mut Rng, kind: DocKind) -> Doc {
     let escape_keys = rng.chance(1, 12);
+    ESCAPE_VALUES.with(|e| e.set(rng.chance(1, 12)));
     let mut e = Emit { rng, escape_keys };
     let mut text = match kind {
         DocKind::SynthRegular => e.regular(0, false),
@@ -610,6 +736,7 @@ pub fn synth(rng: &mut Rng, kind: DocKind) -> Doc {
         DocKind::SynthIndex => e.index(0),
         _ => unreachable!(),
     };
+    ESCAPE_VALUES.with(|e| e.set(false));
     // leading / trailing whitespace around the document
     match rng.below(8) {
         0 => text.insert(0, ' '),
